@@ -120,6 +120,11 @@ class AliasFlow:
     def run(self, f: Func, collect: Optional[list] = None) -> set[int]:
         params = f.call_params
         owned0 = {p.name for p in params if array_like_param(p)}
+        # module-level mutable containers are shared by every caller in the process
+        mod_owned = {n for n, v in f.module.assigns.items() if isinstance(v, (ast.Dict, ast.List, ast.Set)) or (isinstance(v, ast.Call) and dotted(v.func) in ("dict", "list", "set", "defaultdict", "collections.defaultdict", "OrderedDict"))}
+        local_stores = {n.id for n in walk_no_nested(f.node) if isinstance(n, ast.Name) and isinstance(n.ctx, ast.Store)} | {p.name for p in params}
+        mod_owned -= local_stores
+        owned0 |= mod_owned
         if f.self_name:
             owned0.add(f.self_name)  # the object's own arrays are owned by whoever built it
         returned: set[int] = set()
@@ -252,6 +257,8 @@ class AliasFlow:
                     scan_calls(st, owned, origins)
 
         origins0 = {p.name: {pidx[p.name]} for p in params if p.name in owned0}
+        for n in mod_owned:
+            origins0[n] = {-2}  # -2: module-level state
         if f.self_name:
             origins0[f.self_name] = {-1}
         block(f.node.body, set(owned0), origins0)
